@@ -2,7 +2,7 @@
 # run every claimed property's check (tier $1, default quick) sequentially; logs in /tmp/runall/
 cd "$(dirname "$0")/.."
 T=${1:-quick}; mkdir -p /tmp/runall
-for p in C14 C15 C20 C17 C10 C13 C01 C02 C04 C05 C07 C08; do
+for p in ${PROPS:-C14 C15 C20 C17 C10 C12 C13 C01 C02 C04 C05 C07 C08}; do
   ./check $p --tier $T > /tmp/runall/$p.$T.out 2>&1; echo "$p rc=$?" >> /tmp/runall/summary.$T
 done
 echo ALLDONE >> /tmp/runall/summary.$T
